@@ -28,7 +28,12 @@ def parseSenderLog (log : Array Json) : List SP.LEv :=
 def hSendProto (j : Json) : Except String Json := do
   let view ← parseStats j "view"
   let log ← getArr j "log"
-  let v := view.map fun s => (s.isRegular, if s.isRegular then s.size.toNat else 0)
+  -- the length of a file is what its reader yields (`rsize`, when the view says so: a source may announce another size)
+  let raw ← getArr j "view"
+  let rs : List (Option Nat) := raw.toList.map fun x => match x.getObjVal? "rsize" with
+    | .ok y => (y.getNat?).toOption
+    | .error _ => none
+  let v := (view.zip rs).map fun (s, r) => (s.isRegular, if s.isRegular then r.getD s.size.toNat else 0)
   let vd := SP.accept v (parseSenderLog log)
   return jobj [("accept", toJson vd.ok), ("at", toJson vd.at_), ("why", toJson vd.why)]
 
